@@ -77,10 +77,9 @@ class Pi4QPSKModulator(BaseModulator):
         self.register_buffer("constellation", qpsk)
 
         # Bit patterns for symbols (Gray coded or binary)
-        if self.gray_coded:
-            bit_patterns = torch.tensor([[0, 0], [0, 1], [1, 1], [1, 0]], dtype=torch.float)
-        else:
-            bit_patterns = torch.tensor([[0, 0], [0, 1], [1, 0], [1, 1]], dtype=torch.float)
+        # Point i carries the bit pair with value i (forward() indexes the constellation with that
+        # value); Gray coding is realised by the order of the angles above, not by the labels
+        bit_patterns = torch.tensor([[0, 0], [0, 1], [1, 0], [1, 1]], dtype=torch.float)
 
         self.register_buffer("bit_patterns", bit_patterns)
 
@@ -168,7 +167,7 @@ class Pi4QPSKDemodulator(BaseDemodulator):
 
     _use_rotated: torch.Tensor  # Type annotation for the buffer
 
-    def __init__(self, soft_output: bool = False, *args, **kwargs) -> None:
+    def __init__(self, soft_output: bool = False, gray_coded: bool = True, *args, **kwargs) -> None:
         """Initialize the π/4-QPSK demodulator.
 
         Args:
@@ -181,7 +180,8 @@ class Pi4QPSKDemodulator(BaseDemodulator):
         self.soft_output = soft_output
 
         # Create reference modulator to access constellations
-        self.modulator = Pi4QPSKModulator()
+        self.gray_coded = gray_coded
+        self.modulator = Pi4QPSKModulator(gray_coded=gray_coded)
 
         # Keep track of which constellation to use for demodulation
         self.register_buffer("_use_rotated", torch.tensor(False))
